@@ -341,6 +341,8 @@ class Ctx:
         """A property violation (found_input=True: concrete failing input on the
         implementation) or an unexplained broken proof / correspondence."""
         kf = self._match_known(component, kind) if found_input else None
+        if kf is not None and kf.get("detail_contains") and kf["detail_contains"] not in str(detail):
+            kf = None
         if kf is not None:
             self.known_hits[kf["id"]] += 1
             return
